@@ -188,7 +188,7 @@ fn grid(ctx: &Ctx, for_c02: bool) -> Vec<Case> {
                         let xs: Vec<i32> = if for_c02 {
                             vec![]
                         } else if ctx.quick() {
-                            vec![cd as i32, cd as i32 + 1 + r.below(20) as i32, 40 + r.below(20) as i32]
+                            { let mut v = vec![cd as i32, cd as i32 + 1]; for _ in 0..6 { v.push(cd as i32 + 2 + r.below(56) as i32); } v }
                         } else {
                             (cd as i32..=60).collect()
                         };
@@ -230,7 +230,7 @@ pub fn check(ctx: &Ctx) -> i32 {
     extra.insert("grid".into(), json!("players 1..=4 x window 0..=12 x check_distance 0..=13 x delay (quick {0,1,3,8}, thorough 0..=8) x sparse flag; every point is visited"));
     let meta = Meta {
         level: "exploration",
-        rule: "exhaustive grid of builder configurations: invalid ones (check_distance >= window, sparse saving) must be rejected with InvalidRequest, valid ones are run for 150 (quick) / 300 (thorough) frames with unique random inputs on a deterministic game (no MismatchedChecksum, request contract, every input Confirmed and equal to the submission delayed as configured) and, for check_distance >= 2, with a game whose k-th simulation (every k in 2..=check_distance+1) of frame X is perturbed, X over a placement set (quick: 3 placements, thorough: every X in check_distance..=60): MismatchedChecksum must follow within check_distance+2 calls of the deviating simulation and name X+1 as first affected frame. Non-trivial: rejected invalid configuration, or valid configuration with check_distance >= 2 (comparison active) and >= 100 frames. Distinct: grid point.".into(),
+        rule: "exhaustive grid of builder configurations: invalid ones (check_distance >= window, sparse saving) must be rejected with InvalidRequest, valid ones are run for 150 (quick) / 300 (thorough) frames with unique random inputs on a deterministic game (no MismatchedChecksum, request contract, every input Confirmed and equal to the submission delayed as configured) and, for check_distance >= 2, with a game whose k-th simulation (every k in 2..=check_distance+1) of frame X is perturbed, X over a placement set (quick: 8 placements, thorough: every X in check_distance..=60): MismatchedChecksum must follow within check_distance+2 calls of the deviating simulation and name X+1 as first affected frame. Non-trivial: rejected invalid configuration, or valid configuration with check_distance >= 2 (comparison active) and >= 100 frames. Distinct: grid point.".into(),
         assumptions: vec!["harness game is deterministic unless told otherwise".into(), "held on the executions produced, not verified".into()],
         floor_nontrivial: 500,
         exhaustive: Some(true),
